@@ -207,7 +207,7 @@ pub fn run(rest: &str) -> String {
                             if job[0] == "open" {
                                 send(&mut w, json!({"jsonrpc":"2.0","method":"textDocument/didOpen","params":{"textDocument":{"uri":u,"languageId":"tablegen","version":version,"text":job[2]}}})).await;
                             } else {
-                                send(&mut w, json!({"jsonrpc":"2.0","method":"textDocument/didChange","params":{"textDocument":{"uri":u,"version":version},"contentChanges":[{"text":job[2]}]}})).await;
+                                send(&mut w, json!({"jsonrpc":"2.0","method":"textDocument/didChange","params":{"textDocument":{"uri":u,"version":version},"contentChanges":crate::srv::content_changes(&job[2])}})).await;
                             }
                             version += 1;
                             if wait_parked(sh.clone(), Key::Main, Some("main:enter"), step_timeout).await.is_none() {
